@@ -13,6 +13,19 @@ what is stored where, under which facts, with what the property requires.  No ru
                result tables replayed in program order, whole-matrix tests made on the path; every such row must get its own NaN-aware
                extremes and their abscissae, so a mask that is true for a row with a valid sample (`~isfinite(R).all(axis=1)`) is a violation
   c16_uf.py    R4 effects of _pre_calcs / apply_uf / frf_apply_uf and cache discipline, R5 documented factors, R6 exits and index spaces
+
+Fourth pass.  Effects through views are stores on what the view was taken from (`.fill`, `out=` positional or keyword on any numpy call,
+np.copyto / np.putmask incl. `where=`, `v = x[a:b]; v *= f`); an effect that is not followed makes the content of its target unknown: every
+rule that concludes something from the *absence* of a store asks c16_interp.unfollowed_writes first (exit 2, never exit 1).  R5 no longer judges
+store statements one by one: the stores into a, v, d_static, d_dynamic are replayed in program order per row class (rigid-body, elastic,
+residual-flexibility) and the *final* content of each class must be the documented expression, so zero-filled or np.zeros-created parts, a fill
+followed by partial overwrites, reordered partial stores and helpers are one thing, while an rf zeroing that is overwritten later, a late
+`.fill`, or `*= 0` on np.empty memory are violations; a mismatch is a proof only if the value is an expression of the known quantities alone.
+R1 / R2 read every value through one spelling of "column c of a table" (X.T[c], take(axis=1), X[..., c], negative c, X[J][:, c]) and a
+failed comparison on a value that contains a construct without a model is undecided.  R6 gained the DR_Event.apply_uf wrapper (each argument
+in its own role, results stored under the tuple they were computed with).  The interpreter also follows generator functions with literal
+yields, namedtuple / NamedTuple / dataclass records, `try: d[k] except KeyError` as the test `k in d`, `x in (c1, c2, ..)` as the chain of
+equality tests, zip of a literal table with an opaque sequence, set literals.
 """
 from __future__ import annotations
 
@@ -24,8 +37,8 @@ RULES = [
     ("C16-R2", r2_mirror, 12),
     ("C16-R3", r3_envelope, 10),
     ("C16-R4", r4_cache_purity, 30),
-    ("C16-R5", r5_documented_factors, 55),
-    ("C16-R6", r6_exits_and_typing, 90),
+    ("C16-R5", r5_documented_factors, 58),
+    ("C16-R6", r6_exits_and_typing, 94),
 ]
 LEVEL = "other"
 EXPLANATION = ("Static, on values: every path of cla.extrema (both arms, first and later cases, with and without abscissae and case numbers) keeps "
@@ -35,8 +48,10 @@ EXPLANATION = ("Static, on values: every path of cla.extrema (both arms, first a
                "sample gets its own NaN-aware extremes whatever masks, copies and np.where selections the code uses); the SRS envelope is first-or-running-maximum "
                "and independent of the slot index; apply_uf / _pre_calcs / frf_apply_uf write only into storage they allocated (views vs copies "
                "modelled, overwrite_*/out= keywords included), the cache is factor-independent and filled exactly when empty, every part is scaled by "
-               "the documented factor (exact symbolic check, diagonal and full matrices, with and without rf modes), d = d_static + d_dynamic on "
-               "every exit, and full / non-rb / elastic / rf index spaces are used consistently end to end (cache entries typed from what "
+               "the documented factor (exact symbolic check of the final content of the rigid-body, elastic and rf rows of every part after "
+               "replaying all stores in program order, diagonal and full matrices, with rf modes), d = d_static + d_dynamic on "
+               "every exit, DR_Event.apply_uf hands its arguments to apply_uf in their own roles and keeps each result under its factor "
+               "tuple, and full / non-rb / elastic / rf index spaces are used consistently end to end (cache entries typed from what "
                "_pre_calcs stores).")
 MANIFEST = {
     "text": "Partial claim decided statically on values and effects: (R1) role discipline and role information-flow in cla.extrema on every path, "
@@ -47,7 +62,8 @@ MANIFEST = {
             "apply_uf / frf_apply_uf mutate nothing they did not allocate (in-place stores, augmented assignments, overwrite_* / out= on library "
             "calls; basic indexing = view, advanced = copy), the cache is factor-independent, written only when empty, avterm is a snapshot; "
             "(R5) every part of the solution is scaled exactly as documented and genforce - avterm = K d for every m/b/k dimensionality with and "
-            "without rf modes; (R6) every exit returns d = d_static + d_dynamic and _pre_calcs/apply_uf use the full, non-rb, elastic and rf index "
+            "without rf modes; (R6) every exit returns d = d_static + d_dynamic, DR_Event.apply_uf passes sol, m, b, k, nrb, rfmodes on in their roles and "
+            "stores each result under the tuple it was computed with, and _pre_calcs/apply_uf use the full, non-rb, elastic and rf index "
             "spaces consistently. Not decided: NaN semantics of numpy comparisons, report formatting, form_extreme/merge label handling.",
     "note": "Trusted: CPython ast; verifier/c16_interp.py (path enumeration, heap/alias model, table of numpy view/copy semantics), "
             "verifier/e2_formula.py (matrix products abstracted to scalar products), the space rules in verifier/c16_uf.py (Spaces), the row "
